@@ -658,6 +658,17 @@ func (c *Ctx) replyThenDelete() (nSends int, okDel bool, badDel []string) {
 						case *ssa.Parameter:
 							// the record is handed in by the caller: each caller that took it from the table (lookup, range, or
 							// stored it there itself) must delete it under that key around the call
+							// … unless this function stored it into the table itself: record[k] = x
+							for _, b2 := range sfn.Blocks {
+								for _, i2 := range b2.Instrs {
+									if mu, isMU := i2.(*ssa.MapUpdate); isMU && mu.Value == fa.X {
+										key, recorded = mu.Key, true
+									}
+								}
+							}
+							if recorded {
+								break
+							}
 							pi := -1
 							for k, p := range sfn.Params {
 								if p == x {
